@@ -30,6 +30,25 @@ class Node(Command):
         return (self.result_name, tuple((k, n, r) for k, n, f, r in deps))
 
 
+FAIL = set()     # result names whose execute() fails (FlakyNode); the harness clears it to "fix the cause"
+
+
+class FlakyNode(Node):
+    """a command whose execute() fails while its result name is listed in FAIL (a fault inside execute, e.g. a bad input file)"""
+    inputs = dict(Node.inputs)
+    output = params.Parameter()
+
+    def execute(self, **kw):
+        if self.result_name in FAIL:
+            raise RuntimeError("injected failure in %s" % self.result_name)
+        n = len(LOG)
+        try:
+            return Node.execute(self, **kw)
+        except BaseException:
+            del LOG[n]      # an attempt that failed while pulling a failing dependency is not a completed execution
+            raise
+
+
 class NoneNode(Node):
     """side-effect-only command: execute() returns None"""
     inputs = dict(Node.inputs)
